@@ -269,11 +269,14 @@ def oneshot(ctx, kind, B, x, y, label):
         ber = float(BitErrorRate()(tx, ty))
         bsz = B if B is not None else int(np.prod(x.shape[1:])) if x.ndim > 1 else 1
         ctx.check(ber <= float(v) + 1e-7 and float(v) <= min(1.0, bsz * ber) + 1e-6, "C16.o_inequalities", cell, case, {"ber": ber, "bler": float(v)}, "BER <= BLER <= min(1, B*BER)", checker=CHK)
+    if kind == "ber" and not np.iscomplexobj(x):
+        # the BER helper counts differing elements over all elements, whatever the rank of the inputs
+        from kaira.benchmarks.metrics import StandardMetrics
+        ok_h, hv = ctx.call(lambda: StandardMetrics.bit_error_rate(tx, ty), "C16.o_helper_raises", cell, case, checker=CHK)
+        if ok_h:
+            ctx.check(close(hv, exp), "C16.o_helper_ber", cell, case, hv, float(exp), "StandardMetrics.bit_error_rate differs from the exact fraction", CHK)
     if x.ndim == 1 and not np.iscomplexobj(x):
         from kaira.benchmarks.metrics import StandardMetrics
-        if kind == "ber":
-            hv = StandardMetrics.bit_error_rate(tx, ty)
-            ctx.check(close(hv, exp), "C16.o_helper_ber", cell, case, hv, float(exp), "StandardMetrics.bit_error_rate differs from the exact fraction", CHK)
         for hb in (1, 2, 4):
             if len(x) % hb == 0 and len(x) >= hb:
                 he, ht = Model.count("bler", hb, x.reshape(1, -1), y.reshape(1, -1))
